@@ -150,6 +150,7 @@ PROPS["C03"] = dict(
 
 PROPS["C06"] = dict(
     level="proof",
+    translators=["guards.py"],
     technique="Lean 4 theorems (reverse_bubble_list's swap count is the fermionic sign for distinct modes in any context; "
               "normal-ordering steps sound; interleaved<->block index bijection) + exact correspondence: the built "
               "object's apply() vs the Spec action of the source expression, flags/e_0/iht truthfulness, both paths",
@@ -169,6 +170,7 @@ PROPS["C06"] = dict(
 
 PROPS["C02"] = dict(
     level="proof",
+    translators=["guards.py"],
     technique="Lean 4 theorems (scalar part enters exactly once on every route/algorithm of the decision model; in-place "
               "refusal iff Taylor route; group law / identity / inverse of the closed-form single-term evolution; phase "
               "group law of the diagonal routes) + correspondence against expm of the exact Spec matrix of H",
@@ -187,6 +189,7 @@ PROPS["C02"] = dict(
 
 PROPS["C16"] = dict(
     level="proof",
+    translators=["guards.py"],
     technique="Lean 4 theorems about the loop control flow (returns at the first order passing the test — for Chebyshev the "
               "first two consecutive orders — and raises iff none does: never an unconverged return) + correspondence of "
               "the outcome and of the distance to expm over graded (||Ht||, accuracy, expansion)",
